@@ -16,7 +16,7 @@
    ways the call raises) -- with a number of constraints but none selected the dual variable stays zero, the stopping rule
    never fires, each iteration contracts the distance to the least-squares solution by rho / (mu + rho): end-to-end bound and
    limit; a state reproduced by the non_negative loop body is a KKT point; the documented stand-alone call (order = None) raised: repaired by /repo a5b9e5b, the model follows
-   (C13_admm_order_none_is_zero); n_iter_max = 0 still raises (refuted / partial pair C13_admm_returns_refuted, C13_admm_returns_partial); a state reproduced by the l1_reg body meets the lasso
+   (C13_admm_order_none_is_zero); n_iter_max = 0 raised: repaired by /repo fe4edf7, the model follows (C13_admm_zero_iterations); C13_admm_returns is full; a state reproduced by the l1_reg body meets the lasso
    conditions; fista's momentum recurrence is computed in the model (Model/NnlsMomentum.v) and is the sequence the rate theorems use;
    hals_nnls with nonzero_rows=True and epsilon > 0 is the call with nonzero_rows=False. *)
 From Coq Require Import List Arith Reals Lra QArith Qabs.
@@ -301,32 +301,43 @@ Theorem C13_admm_norm_test_is_norm_test : forall (tol : R) (a b : list (list R))
 Proof. exact norm_lt_spec. Qed.
 Print Assumptions C13_admm_norm_test_is_norm_test.
 
-(* "The call returns".  Round 7 found that the use the docstring recommends outside constrained_parafac (n_const = 1, a constraint,
-   `order` left at its default None) raised TypeError; repaired by /repo a5b9e5b (admm reads order = None as mode 0), the model
-   follows the repaired code: C13_admm_order_none_is_zero, Example C13_admm_order_none_before_a5b9e5b (old rule, executed witness).
-   REFUTED (still open, known finding admm_zero_iterations): n_iter_max = 0 -- a value the docstring does not exclude ('Maximum
-   number of iteration') -- raises UnboundLocalError because x_split is never bound: witness + C13_admm_raises (general: no
-   iteration, or an order >= n_const). *)
-Example C13_admm_returns_refuted :
-  admm Qops aw_solve None None (KNone) [[4%Q]] [[2%Q]] [[0%Q]] [[0%Q]] 1 1 0 (1#10000)%Q = Err /\
-  admm Qops aw_solve (Some 1%nat) (Some 0%nat) (KNonneg) [[4%Q]] [[2%Q]] [[0%Q]] [[0%Q]] 1 1 0 (1#10000)%Q = Err.
-Proof. exact admm_zero_iterations_witness. Qed.
+(* "The call returns".  Round 7 found two defects when the whole function was modelled, both repaired in /repo, the model follows the
+   repaired code: the use the docstring recommends outside constrained_parafac (n_const = 1, `order` left at its default None) raised
+   TypeError (a5b9e5b: order = None is mode 0 -- C13_admm_order_none_is_zero, Example C13_admm_order_none_before_a5b9e5b), and
+   n_iter_max = 0 raised UnboundLocalError (fe4edf7: x_split = x^T is bound before the loop -- C13_admm_zero_iterations, Example
+   C13_admm_zero_iterations_before_fe4edf7).
+   FULL: for EVERY n_iter_max the call returns when (n_const, order) is accepted by proximal_operator -- n_const None, or order (None
+   counting as 0) < n_const -- and for n_iter_max = 0 whatever they are; every data, constraint, tol, tl.solve. *)
+Theorem C13_admm_returns : forall (F : Type) (Op : fops F) (solve : list (list F) -> list (list F) -> list (list F))
+  (n_const order : option nat) (k : constr) (UtM UtU x dual : list (list F)) (m r n : nat) (tol : F),
+  (n = 0%nat \/ n_const = None \/ exists nc : nat, n_const = Some nc /\ (order_eff order < nc)%nat) ->
+  exists t, admm Op solve n_const order k UtM UtU x dual m r n tol = Ok t.
+Proof. exact @admm_returns. Qed.
+Print Assumptions C13_admm_returns.
+(* the one remaining raising case, as it should (IndexError): at least one iteration and an order >= n_const *)
 Theorem C13_admm_raises : forall (F : Type) (Op : fops F) (solve : list (list F) -> list (list F) -> list (list F))
   (n_const order : option nat) (k : constr) (UtM UtU x dual : list (list F)) (m r n : nat) (tol : F),
-  n = 0%nat \/ (exists nc : nat, n_const = Some nc /\ (nc <= order_eff order)%nat) ->
+  n <> 0%nat -> (exists nc : nat, n_const = Some nc /\ (nc <= order_eff order)%nat) ->
   admm Op solve n_const order k UtM UtU x dual m r n tol = Err.
 Proof. exact @admm_raises. Qed.
 Print Assumptions C13_admm_raises.
-(* PARTIAL (the restricted statement that holds; restricted only by n_iter_max >= 1): with (n_const, order) accepted by
-   proximal_operator -- n_const None, or order (None counting as 0) < n_const -- the call returns, for every data, constraint,
-   tol, tl.solve *)
-Theorem C13_admm_returns_partial : forall (F : Type) (Op : fops F) (solve : list (list F) -> list (list F) -> list (list F))
-  (n_const order : option nat) (k : constr) (UtM UtU x dual : list (list F)) (m r n : nat) (tol : F),
-  n <> 0%nat ->
-  n_const = None \/ (exists nc : nat, n_const = Some nc /\ (order_eff order < nc)%nat) ->
-  exists t, admm Op solve n_const order k UtM UtU x dual m r n tol = Ok t.
-Proof. exact @admm_returns. Qed.
-Print Assumptions C13_admm_returns_partial.
+(* FULL (repaired code fe4edf7): with n_iter_max = 0 the call returns the start and the split variable consistent with it;
+   under the old rule it raised *)
+Theorem C13_admm_zero_iterations : forall (F : Type) (Op : fops F) (solve : list (list F) -> list (list F) -> list (list F))
+  (n_const order : option nat) (k : constr) (UtM UtU x dual : list (list F)) (m r : nat) (tol : F),
+  admm Op solve n_const order k UtM UtU x dual m r 0 tol = Ok (x, mtranspose Op r x, dual).
+Proof. exact @admm_zero_iterations. Qed.
+Print Assumptions C13_admm_zero_iterations.
+Theorem C13_admm_zero_iterations_raised_before_fe4edf7 : forall (F : Type) (Op : fops F) (solve : list (list F) -> list (list F) -> list (list F))
+  (n_const order : option nat) (k : constr) (UtM UtU x dual : list (list F)) (m r : nat) (tol : F),
+  admm_before_fe4edf7 Op solve n_const order k UtM UtU x dual m r 0 tol = Err.
+Proof. exact @admm_zero_iterations_raised_before. Qed.
+Print Assumptions C13_admm_zero_iterations_raised_before_fe4edf7.
+Example C13_admm_zero_iterations_before_fe4edf7 :
+  admm_before_fe4edf7 Qops aw_solve None None (KNone) [[4%Q]] [[2%Q]] [[1%Q]] [[0%Q]] 1 1 0 (1#10000)%Q = Err /\
+  admm Qops aw_solve None None (KNone) [[4%Q]] [[2%Q]] [[1%Q]] [[0%Q]] 1 1 0 (1#10000)%Q = Ok ([[1]], [[1]], [[0]])%Q /\
+  admm Qops aw_solve (Some 1%nat) (Some 5%nat) (KNonneg) [[4%Q]] [[2%Q]] [[1%Q]] [[0%Q]] 1 1 0 (1#10000)%Q = Ok ([[1]], [[1]], [[0]])%Q.
+Proof. exact admm_zero_iterations_witness. Qed.
 (* FULL (repaired code a5b9e5b): order = None IS order = 0, for every other argument; under the old rule the call raised *)
 Theorem C13_admm_order_none_is_zero : forall (F : Type) (Op : fops F) (solve : list (list F) -> list (list F) -> list (list F))
   (n_const : option nat) (k : constr) (UtM UtU x dual : list (list F)) (m r n : nat) (tol : F),
@@ -397,7 +408,7 @@ Theorem C13_admm_unconstrained_bound : forall (solve : list (list R) -> list (li
   (o < nc)%nat -> n <> 0%nat -> wfm m r x -> wfm m r d -> allz d ->
   exists x' xs' d',
     admm Rops solve (Some nc) (Some o) KNone UtM UtU x d m r n tol = Ok (x', xs', d') /\
-    (x', Some xs', d') = admm_iter solve UtM UtU m r n x None d /\
+    (x', Some xs', d') = admm_iter solve UtM UtU m r n x (Some (mtranspose Rops r x)) d /\
     wfm m r x' /\ allz d' /\
     forall c, (c < m)%nat ->
       ((mu + admm_rho Rops UtU r) ^ 2) ^ n * err2 r xstar x' c <= (admm_rho Rops UtU r ^ 2) ^ n * err2 r xstar x c.
@@ -486,9 +497,10 @@ Proof. exact admm_l1_fixed_point_kkt. Qed.
 Print Assumptions C13_admm_l1_fixed_point_kkt.
 
 (* FULL: admm with non_negative=True returns a non-negative x -- any tl.solve (no contract), any data and shapes, any tol,
-   any n_const / order the call accepts *)
+   any n_const / order the call accepts (at least one iteration, or a non-negative start) *)
 Theorem C13_admm_nonneg_returns_nonneg : forall (solve : list (list R) -> list (list R) -> list (list R)) (nc : nat) (order : option nat)
   (UtM UtU x dual : list (list R)) (m r n : nat) (tol : R) (x' xs' d' : list (list R)),
+  (n <> 0%nat \/ nonnegm x) ->
   admm Rops solve (Some nc) order KNonneg UtM UtU x dual m r n tol = Ok (x', xs', d') -> nonnegm x'.
 Proof. exact admm_nonneg_returns_nonneg. Qed.
 Print Assumptions C13_admm_nonneg_returns_nonneg.
